@@ -26,3 +26,43 @@ def pairpos1_flatten_first_record_wins(shape):
     observe('pairsets', [len(ps.PairValueRecord) for ps in flat.PairSet])
     ob('same-pairs', same_pairs(before, [flat], GLYPHS))
     ob('counts', flat.PairSetCount == len(flat.PairSet) == len(flat.Coverage.glyphs) and all(ps.PairValueCount == len(ps.PairValueRecord) for ps in flat.PairSet))
+
+
+# ------------------------------------------------------------------------------------------------ metrics from phantom points (the step _instantiateGvarGlyph ends with)
+import fontTools.ttLib.tables._g_l_y_f as GL
+import fontTools.misc.roundTools as RT
+from sx.api import is_int
+from harness.C04_container import _simple_glyph, _is_rounded_min
+shim_all(GL, RT)
+
+
+def _is_otround(k, v):
+    return conj([is_int(k), le(k - 0.5, v), lt(v, k + 0.5)])
+
+
+@kernel('C08', funcs=['ttLib/tables/_g_l_y_f.py:table__g_l_y_f._setCoordinates', 'ttLib/tables/_g_l_y_f.py:Glyph.recalcBounds', 'misc/roundTools.py:otRound'],
+        bounds='a simple glyph of 2 points whose new coordinates and four phantom points (left, right, top, bottom) are SYMBOLIC reals in [-3000, 3000] - the values a gvar '
+               'instance produces: the advance width stored in hmtx is otRound(right - left) (0 when negative), the left side bearing otRound(xMin - left) with xMin the '
+               'rounded minimum of the new outline, and likewise advance height = otRound(top - bottom), top side bearing = otRound(top - yMax); the left phantom point '
+               'need not be at 0 (it is moved by gvar, or hmtx lsb differs from xMin)',
+        shims=['array("d") over reals', 'round/int/math.floor'], quick=[dict(vert=False)], thorough=[dict(vert=False), dict(vert=True)], max_paths=50000)
+def set_coordinates_metrics(vert):
+    g, _ = _simple_glyph('old', 2, False)
+    table = GL.table__g_l_y_f()
+    table.glyphs = {'g': g}
+    table.glyphOrder = ['g']
+    new = [(V.real('x%d' % i, -3000, 3000), V.real('y%d' % i, -3000, 3000)) for i in range(2)]
+    left, right = V.real('left', -3000, 3000), V.real('right', -3000, 3000)
+    top, bottom = V.real('top', -3000, 3000), V.real('bottom', -3000, 3000)
+    coord = GL.GlyphCoordinates(new + [(left, 0), (right, 0), (0, top), (0, bottom)])
+    hm, vm = {}, ({} if vert else None)
+    table._setCoordinates('g', coord, hm, vm)
+    adv, lsb = hm['g']
+    observe('hmtx', [adv, lsb])
+    ob('advance-width', disj([conj([lt(right - left, -0.5), eq(adv, 0)]), conj([le(-0.5, right - left), _is_otround(adv, right - left)])]))
+    ob('xMin', _is_rounded_min(g.xMin, [p[0] for p in new], 1))
+    ob('left-side-bearing', _is_otround(lsb, g.xMin - left))
+    if vert:
+        vadv, tsb = vm['g']
+        ob('advance-height', disj([conj([lt(top - bottom, -0.5), eq(vadv, 0)]), conj([le(-0.5, top - bottom), _is_otround(vadv, top - bottom)])]))
+        ob('top-side-bearing', _is_otround(tsb, top - g.yMax))
